@@ -225,7 +225,7 @@ func main() {
 		}
 	}
 	_ = uuAlias
-	imports += "\tuu \"go.lstv.dev/util/uu\"\n"
+	fullImports := imports + "\tuu \"go.lstv.dev/util/uu\"\n"
 	if resetOnly {
 		src := fmt.Sprintf("// Code generated by vsim rewrite. DO NOT EDIT.\n\npackage %s\n\nimport (\n%s)\n\n// resetPackages re-initialises the package-level state of the packages under test.\nfunc resetPackages() {\n%s}\n", filepath.Base(filepath.Dir(out)), imports, calls)
 		if err := os.WriteFile(out, []byte(src), 0o644); err != nil {
@@ -260,7 +260,7 @@ var ExtraSources = []func(n int) []uu.ID{
 
 // ExtraSourceNames names them.
 var ExtraSourceNames = []string{%s}
-`, imports, calls, len(i2off) == 0, usesSync, strings.Join(unsupported, "; "), note, names, sources, srcNames)
+`, fullImports, calls, len(i2off) == 0, usesSync, strings.Join(unsupported, "; "), note, names, sources, srcNames)
 	if err := os.WriteFile(out, []byte(src), 0o644); err != nil {
 		die(err)
 	}
